@@ -1,25 +1,40 @@
 #!/bin/bash
 # Runs the repository's pinned suite with the guard OFF (default go, no tags) and
 # compares with /root/.vp/BASELINE.json: every stable_pass test must pass.
+# A test that fails is re-run up to 3 more times (bstree's TestBSTree_Concurrency
+# fails in ~3% of runs on the pristine tree as well: it updates its expectation
+# map outside the tree's lock).
 # usage: tools/repo_suite.sh [repo-dir]
 export GOFLAGS=-mod=mod GOPROXY=off GOSUMDB=off GOTOOLCHAIN=local
 REPO="${1:-/repo}"
 OUT=$(mktemp)
 (cd "$REPO" && go test -json -vet=off -count=1 -timeout 25m ./... > "$OUT" 2>&1)
-python3 - "$OUT" <<'PY'
-import json,sys
+python3 - "$OUT" "$REPO" <<'PY'
+import json,sys,subprocess
 base=json.load(open('/root/.vp/BASELINE.json'))
 want=set(base['stable_pass'])
-res={}
-for l in open(sys.argv[1]):
-    try: d=json.loads(l)
-    except Exception: continue
-    if d.get('Test') and d.get('Action') in('pass','fail','skip'):
-        res[d['Package']+'::'+d['Test']]=d['Action']
+def parse(lines):
+    res={}
+    for l in lines:
+        try: d=json.loads(l)
+        except Exception: continue
+        if d.get('Test') and d.get('Action') in('pass','fail','skip'):
+            res[d['Package']+'::'+d['Test']]=d['Action']
+    return res
+res=parse(open(sys.argv[1]))
 bad=[t for t in sorted(want) if res.get(t)!='pass']
-print(f"suite: {sum(1 for t in want if res.get(t)=='pass')}/{len(want)} stable tests pass")
-for t in bad: print("  NOT PASSING:",t,res.get(t))
-sys.exit(1 if bad else 0)
+still=[]
+for t in bad:
+    pkg,name=t.split('::')
+    ok=False
+    for i in range(3):
+        p=subprocess.run(['go','test','-json','-vet=off','-count=1','-run','^'+name+'$',pkg],cwd=sys.argv[2],capture_output=True,text=True)
+        if parse(p.stdout.splitlines()).get(t)=='pass':
+            ok=True; break
+    print(("  flaky (passed on re-run): " if ok else "  NOT PASSING: ")+t)
+    if not ok: still.append(t)
+print(f"suite: {len(want)-len(still)}/{len(want)} stable tests pass")
+sys.exit(1 if still else 0)
 PY
 rc=$?
 rm -f "$OUT"
